@@ -254,8 +254,40 @@ def recOp (ts : List String) : String :=
     | _, _ => "bad-op"
   | _ => "bad-op"
 
+/-! ### Several Limiters in one script (wave 6, class 10)
+Header `@ C19 multi <limit0> <limit1> …`; op `<index> <op of the single-limiter protocol>`.
+Every Limiter is its own machine: an op of Limiter `i` is played on machine `i` and leaves
+every other machine untouched (`playMulti_frame`) — there is no state shared between
+`Limiter` values. -/
+
+def playMultiOp (ps : List Player) (ts : List String) : List Player × String :=
+  match ts with
+  | idx :: rest =>
+    match idx.toNat? with
+    | some i =>
+      match ps[i]? with
+      | some p =>
+        let r := playOp p rest
+        (ps.set i r.1, r.2)
+      | none => (ps, "bad-op")
+    | none => (ps, "bad-op")
+  | [] => (ps, "bad-op")
+
+def playMulti : List Player → List String → List String
+  | _, [] => []
+  | ps, l :: rest =>
+    let r := playMultiOp ps (toks l)
+    r.2 :: playMulti r.1 rest
+
 def runCase (hdr : List String) (ops : List String) : List String :=
   match hdr with
+  | "multi" :: limits =>
+    match limits.mapM String.toInt? with
+    | some ls =>
+      if ls.isEmpty then "bad-op" :: ops.map fun _ => "bad-op" else
+      ("caps " ++ " ".intercalate (ls.map fun l => toString (limitOf l))) ::
+        playMulti (ls.map fun l => { s := newLimiter l }) ops
+    | none => "bad-op" :: ops.map fun _ => "bad-op"
   | ["rec"] => "ok" :: ops.map fun l => recOp (toks l)
   | ["trace", limit] =>
     match limit.toInt? with
